@@ -16,7 +16,7 @@ type Input struct {
 	Note      string                       `json:"note,omitempty"`
 }
 
-var accPool = []string{"world", "a", "b", "c", "d", "x:y", "cfg", "world:fees"}
+var accPool = []string{"world", "a", "b", "c", "d", "x:y", "cfg", "world:fees", "World"}
 var assetPool = []string{"USD", "EUR", "COIN/2"}
 var amtPool = []string{"0", "1", "2", "3", "5", "7", "10", "10", "10", "20", "50", "50", "99", "100", "100", "101", "1000", "100000000000000001", "9000000000000000000", "18446744073709551617", "340282366920938463463374607431768211456"}
 var balPool = []string{"0", "1", "5", "10", "50", "100", "100", "200", "1000", "1000", "5000", "9100000000000000000", "18446744073709551621", "680564733841876926926749214863536422912", "-20", "-50"}
